@@ -702,7 +702,11 @@ class Unit:
 
     def __hash__(self) -> int:
         """hash(self)"""
-        return hash(self.symbol)
+        # units of a quantity type are equal if they have the same scale, so
+        # their hash must not depend on the symbol
+        if self._equiv is None:
+            return hash(self.symbol)
+        return hash((self._qty_cls, self._equiv))
 
     def __copy__(self) -> Unit:
         """Return self (:class:`Unit` instances are immutable)."""
@@ -1057,10 +1061,13 @@ class QuantityMeta(ClassWithDefinitionMeta):
         cls._converters: List[ConverterT] = []
 
     def _make_unit(cls, symbol: str, name: Optional[str],  # noqa: N805
-                   define_as: Optional[UnitDefT]) -> Unit:
+                   define_as: Optional[UnitDefT],
+                   is_ref_unit: bool = False) -> Unit:
         unit_cls = cls._unit_cls
         unit = object.__new__(unit_cls)
         unit._qty_cls = cls
+        # the scale must be set before the unit gets registered, because the
+        # unit's hash depends on it
         if isinstance(define_as, Term):
             unit._definition = define_as
             unit._equiv = define_as.normalized().num_elem or ONE
@@ -1068,6 +1075,8 @@ class QuantityMeta(ClassWithDefinitionMeta):
             assert define_as is None, "Unknown type of Unit definition."
             unit._definition = None
             unit._equiv = None
+        if is_ref_unit:
+            unit._equiv = ONE
         assert symbol, "A symbol must be given for the unit."
         try:
             _SYMBOL_UNIT_MAP[symbol]
@@ -1086,9 +1095,8 @@ class QuantityMeta(ClassWithDefinitionMeta):
 
     def _make_ref_unit(cls, symbol: str, name: Optional[str],  # noqa: N805
                        define_as: Optional[UnitDefT]) -> Unit:
-        unit = cls._make_unit(symbol, name, define_as=define_as)
-        unit._equiv = ONE
-        return unit
+        return cls._make_unit(symbol, name, define_as=define_as,
+                              is_ref_unit=True)
 
     @property
     def ref_unit(cls) -> Optional[Unit]:  # noqa: N805
